@@ -15,11 +15,20 @@ pub enum V {
     Int(i64),
     Str(String),
     Arr(Vec<V>),
+    /// a value together with the path at which it sits (path mode, inside `path(..)`)
+    At(Box<V>, Vec<i64>),
 }
 
 impl V {
+    /// the value without its path
+    pub fn plain(&self) -> &V {
+        match self {
+            V::At(v, _) => v.plain(),
+            v => v,
+        }
+    }
     pub fn truthy(&self) -> bool {
-        !matches!(self, V::Null | V::False)
+        !matches!(self.plain(), V::Null | V::False)
     }
     fn rank(&self) -> u8 {
         match self {
@@ -29,10 +38,11 @@ impl V {
             V::Int(_) => 3,
             V::Str(_) => 4,
             V::Arr(_) => 5,
+            V::At(v, _) => v.rank(),
         }
     }
     pub fn cmp(&self, o: &V) -> std::cmp::Ordering {
-        match (self, o) {
+        match (self.plain(), o.plain()) {
             (V::Int(a), V::Int(b)) => a.cmp(b),
             (V::Str(a), V::Str(b)) => a.cmp(b),
             (V::Arr(a), V::Arr(b)) => {
@@ -44,7 +54,7 @@ impl V {
                 }
                 a.len().cmp(&b.len())
             }
-            _ => self.rank().cmp(&o.rank()),
+            (a, b) => a.rank().cmp(&b.rank()),
         }
     }
     /// compact JSON, as jaq prints it
@@ -56,10 +66,11 @@ impl V {
             V::Int(i) => i.to_string(),
             V::Str(s) => format!("{s:?}"),
             V::Arr(a) => format!("[{}]", a.iter().map(|v| v.json()).collect::<Vec<_>>().join(",")),
+            V::At(v, _) => v.json(),
         }
     }
     fn add(&self, o: &V) -> Result<V, V> {
-        match (self, o) {
+        match (self.plain(), o.plain()) {
             (V::Int(a), V::Int(b)) => Ok(V::Int(a.wrapping_add(*b))),
             (V::Null, x) | (x, V::Null) => Ok(x.clone()),
             (V::Arr(a), V::Arr(b)) => Ok(V::Arr(a.iter().chain(b).cloned().collect())),
@@ -154,6 +165,14 @@ pub enum T {
     SliceTo(i64, Box<T>),
     /// `[10,20,30,40,50,60] | .[(Z)]`: an effectful, multi-valued index
     IndexAt(Box<T>),
+    /// `[[10,20,30],[40,50]] | path(E)`: E is run in path mode
+    PathOf(Box<T>),
+    /// `.[i]` (used inside `path(..)`)
+    Idx(i64),
+    /// `.[]` (used inside `path(..)`)
+    Iter,
+    /// `probe(i)`: effect P(i), passes its input (and, in path mode, its path) through
+    Pass(i64),
 }
 
 pub const ARR: [i64; 6] = [10, 20, 30, 40, 50, 60];
@@ -207,6 +226,10 @@ impl T {
             T::AddVar(x) => format!("(. + ${x})"),
             T::SliceTo(a, z) => format!("([10,20,30,40,50,60] | .[{a}:({})])", b(z)),
             T::IndexAt(z) => format!("([10,20,30,40,50,60] | .[({})])", b(z)),
+            T::PathOf(e) => format!("([[10,20,30],[40,50]] | path({}))", b(e)),
+            T::Idx(i) => format!(".[{i}]"),
+            T::Iter => ".[]".into(),
+            T::Pass(i) => format!("probe({i})"),
         }
     }
     /// effects sit in index / bound positions of a path (compared as sets, see c03.rs)
@@ -231,7 +254,7 @@ impl T {
             }
             T::TryQ(a) | T::Label(_, a) | T::First(a) | T::Limit(_, a) | T::Skip(_, a) | T::Nth(_, a)
             | T::IsEmpty(a) | T::Any(a, _) | T::All(a, _) | T::Arr(a) | T::Rec(a) | T::Repeat(a)
-            | T::Recurse(a) | T::While(_, a) | T::Until(_, a) | T::SliceTo(_, a) | T::IndexAt(a) => f(a),
+            | T::Recurse(a) | T::While(_, a) | T::Until(_, a) | T::SliceTo(_, a) | T::IndexAt(a) | T::PathOf(a) => f(a),
             T::Foreach(s, _, _, u, e) => {
                 f(s);
                 f(u);
@@ -763,6 +786,55 @@ fn eval_(t: &T, env: &Env) -> Stream {
             }
             _ => once(Step::Err(X::Error(V::Str("cannot index array".into())))),
         }),
+        T::PathOf(e) => {
+            let root = V::Arr(vec![
+                V::Arr(vec![V::Int(10), V::Int(20), V::Int(30)]),
+                V::Arr(vec![V::Int(40), V::Int(50)]),
+            ]);
+            let s = eval(e, &env.with_dot(V::At(Box::new(root), vec![])));
+            flat(s, |v| match v {
+                V::At(_, p) => once(Step::Out(V::Arr(p.into_iter().map(V::Int).collect()))),
+                _ => once(Step::Err(X::Error(V::Str("invalid path expression".into())))),
+            })
+        }
+        T::Idx(i) => match &env.dot {
+            V::At(v, p) => match &**v {
+                V::Arr(a) => {
+                    let len = a.len() as i64;
+                    let k = if *i < 0 { len + *i } else { *i };
+                    let e = if (0..len).contains(&k) { a[k as usize].clone() } else { V::Null };
+                    let mut p2 = p.clone();
+                    p2.push(*i);
+                    once(Step::Out(V::At(Box::new(e), p2)))
+                }
+                V::Null => {
+                    let mut p2 = p.clone();
+                    p2.push(*i);
+                    once(Step::Out(V::At(Box::new(V::Null), p2)))
+                }
+                _ => once(Step::Err(X::Error(V::Str("cannot index".into())))),
+            },
+            _ => once(Step::Err(X::Error(V::Str("not in path mode".into())))),
+        },
+        T::Iter => match &env.dot {
+            V::At(v, p) => match &**v {
+                V::Arr(a) => {
+                    let items: Vec<Step> = a
+                        .iter()
+                        .enumerate()
+                        .map(|(k, e)| {
+                            let mut p2 = p.clone();
+                            p2.push(k as i64);
+                            Step::Out(V::At(Box::new(e.clone()), p2))
+                        })
+                        .collect();
+                    steps(items)
+                }
+                _ => once(Step::Err(X::Error(V::Str("cannot iterate".into())))),
+            },
+            _ => once(Step::Err(X::Error(V::Str("not in path mode".into())))),
+        },
+        T::Pass(i) => steps(vec![Step::E(Ev::P(i.to_string())), Step::Out(env.dot.clone())]),
         T::Range(a, b, by) => {
             let (mut cur, to, by) = (*a, *b, *by);
             Box::new(std::iter::from_fn(move || {
